@@ -1,6 +1,6 @@
 //! C15 — variable-length integer codec is a correct, canonical, total bijection.
 
-use ebml_iterable::tools::{self, SignedVint, Vint};
+use ebml_iterable::tools::{self, SignedVint};
 
 use crate::refmodel::*;
 use crate::runner::*;
